@@ -1,0 +1,46 @@
+//go:build verif
+// +build verif
+
+package reference_criterion
+
+// Contracts for gocv (comment-only; compiled out unless the tag "verif" is set, and empty then).
+
+//@ spec cum(w []model.WeightedCriterion, n int) real = n <= 0 ? 0.0 : cum(w, n - 1) + w[n - 1].Weight
+
+//@ ifacemethod ReferenceCriterionProvider.Provide
+//@   requires len(*rankedCriteria) > 0
+//@   ensures result != nil && exists k int :: 0 <= k && k < len(*rankedCriteria) && *result == (*rankedCriteria)[k].Criterion
+
+//@ func FindCriterionInRange
+//@   property C18
+//@   requires len(*rankedCriteria) > 0
+//@   ensures [member] result != nil && exists k int :: 0 <= k && k < len(*rankedCriteria) && *result == (*rankedCriteria)[k].Criterion
+//@   ensures [first_reaching] (exists k int :: 0 <= k && k < len(*rankedCriteria) && *result == (*rankedCriteria)[k].Criterion
+//@                && cum(*rankedCriteria, k + 1) >= expectedCumulatedWeight && (forall j int :: 0 <= j && j < k ==> cum(*rankedCriteria, j + 1) < expectedCumulatedWeight))
+//@             || (*result == (*rankedCriteria)[len(*rankedCriteria) - 1].Criterion && (forall j int :: 0 <= j && j < len(*rankedCriteria) ==> cum(*rankedCriteria, j + 1) < expectedCumulatedWeight))
+//@   loop 1 invariant [sum] currentWeight == cum(*rankedCriteria, iter)
+//@   loop 1 invariant [below] forall j int :: 0 <= j && j < iter ==> cum(*rankedCriteria, j + 1) < expectedCumulatedWeight
+
+//@ func (*ImportanceRatioReferenceCriterionProvider).Provide
+//@   property C18
+//@   requires len(*rankedCriteria) > 0
+//@   ensures [member] result != nil && exists k int :: 0 <= k && k < len(*rankedCriteria) && *result == (*rankedCriteria)[k].Criterion
+//@   loop 1 invariant [sum] total == cum(*rankedCriteria, iter)
+
+//@ func (*RandomUniformReferenceCriterionProvider).Provide
+//@   property C18
+//@   fnparam generator ensures 0.0 <= result && result < 1.0
+//@   requires len(*rankedCriteria) > 0
+//@   ensures [member] result != nil && exists k int :: 0 <= k && k < len(*rankedCriteria) && *result == (*rankedCriteria)[k].Criterion
+
+//@ func (*RandomWeightedReferenceCriterionProvider).Provide
+//@   property C18
+//@   requires len(*rankedCriteria) > 0
+//@   ensures [member] result != nil && exists k int :: 0 <= k && k < len(*rankedCriteria) && *result == (*rankedCriteria)[k].Criterion
+//@   loop 2 invariant [ctx] fresh(mappedWeights) && len(mappedWeights) == len(*rankedCriteria)
+//@   loop 2 invariant [same_criteria] forall k int :: 0 <= k && k < iter ==> mappedWeights[k].Criterion == (*rankedCriteria)[k].Criterion
+
+// ForParams decodes into the provider returned by NewProvider() (an interface value whose dynamic type is not known
+// statically): assumed to write only that fresh object and to return it.
+//@ func (*ReferenceCriteriaManager).ForParams
+//@   trusted
